@@ -106,6 +106,23 @@ function injections(p) {
   return out
 }
 
+/** a `wx:else` / `wx:elif` behind a chain that is already closed by its `wx:else` has no chain to join: every chain shape x late
+ *  branch x what stands between them x element kind (also with the closed chain inside the else branch of an outer chain) */
+function closedChainDefects() {
+  const out = []
+  const chains = ['<a wx:if="{{x}}"/><b wx:else/>', '<a wx:if="{{x}}">p</a><b wx:elif="{{y}}">q</b><b wx:else>r</b>', '<block wx:if="{{x}}">p</block><block wx:else>r</block>',
+    '<a wx:if="{{x}}"/><block wx:else><b wx:if="{{y}}"/><d wx:else/></block>']
+  const lates = [['else', (tag) => `<${tag} wx:else>s</${tag}>`], ['else-self-closing', (tag) => `<${tag} wx:else/>`], ['elif', (tag) => `<${tag} wx:elif="{{z}}">s</${tag}>`]]
+  const seps = [['', 'adjacent'], ['<!-- c -->', 'comment'], ['\n  ', 'blank'], ['\n<!-- c -->\n', 'blank-comment-blank']]
+  for (const [ci, chain] of chains.entries()) for (const [ln, late] of lates) for (const [sep, sn] of seps) for (const tag of ['c', 'block']) {
+    if (tag === 'block' && ln === 'else-self-closing') continue
+    for (const wrap of [(t) => t, (t) => `<v>${t}</v>`, (t) => `<e wx:for="{{l}}">${t}</e>`]) {
+      out.push({ name: `late-${ln}-after-closed-chain:${ci}:${sn}:${tag}@0`, text: wrap(chain + sep + late(tag)) + '<t/>', expect: ['invalid attribute'] })
+    }
+  }
+  return out
+}
+
 function lineLengths(src) {
   // UTF-16 length of every line (lines are separated by \n)
   return src.split('\n').map((l) => l.length)
@@ -166,6 +183,7 @@ function runShard(info, thorough) {
         for (const inj of injections(printed[i].main)) injJobs.push({ w, inj, base: printed[i].main.text })
       }
     })
+    if (s === 0 && info.shard === 0) for (const inj of closedChainDefects()) injJobs.push({ w: null, inj, base: '(a condition chain that already has its wx:else branch)' })
     for (let k = 0; k < injJobs.length; k += 2000) {
       const chunk = injJobs.slice(k, k + 2000)
       const r2 = C.compileBatch(chunk.map((j, i) => ({ id: i, files: [['d/m', j.inj.text]], want: ['diags'] })), 1)
